@@ -20,7 +20,7 @@ for i in range(1, 21):
         done = set()
         if os.path.exists(dst + "/meta.json"):
             m = json.load(open(dst + "/meta.json"))
-            done = set(x.split()[0] for x, v in m.get("verification", {}).get("checks", {}).items() if v.get("exit") in (0, 1))
+            done = set(x.split()[0] for x, v in m.get("verification", {}).get("checks", {}).items() if v.get("exit") == 0)
             srcdir, merge = dst, ["--merge"]
         elif os.path.exists(src + "/meta.json") and os.path.exists(src + "/patch.diff"):
             srcdir, merge = src, []
